@@ -493,7 +493,20 @@ def _own_continue(body) -> bool:
 
 # ---------------------------------------------------------------------------------------------------------------------
 class _BetaArgs(ast.NodeTransformer):
-    """(lambda a, b: e)(x, y) -> e[a:=x, b:=y] ; t.__getitem__(k) -> t[k]"""
+    """(lambda a, b: e)(x, y) -> e[a:=x, b:=y] ; t.__getitem__(k) -> t[k] ; `a if True else b` -> a ; `if False:` dropped
+    (what substituting constant arguments leaves behind)"""
+
+    def visit_IfExp(self, n):
+        n = self.generic_visit(n)
+        if isinstance(n.test, ast.Constant) and isinstance(n.test.value, bool):
+            return n.body if n.test.value else n.orelse
+        return n
+
+    def visit_If(self, n):
+        n = self.generic_visit(n)
+        if isinstance(n.test, ast.Constant) and isinstance(n.test.value, bool):
+            return (n.body if n.test.value else n.orelse) or [ast.copy_location(ast.Pass(), n)]
+        return n
 
     def visit_Call(self, n):
         n = self.generic_visit(n)
@@ -548,6 +561,67 @@ class _ReplaceCalls(ast.NodeTransformer):
         self.changed = True
         self.inl.inlined.append(h.qual)
         return ast.copy_location(e, n)
+
+
+def _unconditional_calls(e: ast.AST):
+    """calls inside e that are evaluated whenever e is (not under a lambda, a comprehension, the arms of a conditional
+    expression or the later operands of and/or)"""
+    if isinstance(e, (ast.Lambda, ast.ListComp, ast.SetComp, ast.DictComp, ast.GeneratorExp)):
+        if not isinstance(e, ast.Lambda) and e.generators:
+            yield from _unconditional_calls(e.generators[0].iter)
+        return
+    if isinstance(e, ast.IfExp):
+        yield from _unconditional_calls(e.test)
+        return
+    if isinstance(e, ast.BoolOp):
+        yield from _unconditional_calls(e.values[0])
+        return
+    if isinstance(e, ast.Call):
+        yield e
+    for ch in ast.iter_child_nodes(e):
+        yield from _unconditional_calls(ch)
+
+
+def _hoist(st: ast.stmt, inl: 'Inliner', cls) -> Optional[List[ast.stmt]]:
+    if isinstance(st, ast.For):
+        roots = [('iter', st.iter)]
+    elif isinstance(st, (ast.Assign, ast.AugAssign, ast.Return, ast.Expr, ast.AnnAssign)) and \
+            getattr(st, 'value', None) is not None:
+        roots = [('value', st.value)]
+    elif isinstance(st, (ast.If, ast.While)) and isinstance(st, ast.If):
+        roots = [('test', st.test)]
+    else:
+        return None
+    for fld, root in roots:
+        for call in _unconditional_calls(root):
+            if call is root and not isinstance(st, (ast.For, ast.If, ast.AugAssign)):
+                continue   # the whole value: the statement-level case
+            t = inl.target(call, cls)
+            if t is None or t[0].is_gen:
+                continue
+            h, recv = t
+            try:
+                bind = inl.bind(h, call, recv)
+                if inl.as_expr(h, bind) is not None:
+                    continue
+                tmp = ast.Name(id=f'{h.name.strip("_")}_result{inl.counter + 1}', ctx=ast.Store())
+                new = inl.as_stmts(h, bind, tmp, 'assign')
+            except CannotInline:
+                continue
+            inl.inlined.append(h.qual)
+            load = ast.Name(id=tmp.id, ctx=ast.Load())
+
+            class Swap(ast.NodeTransformer):
+                def visit_Call(self, n):
+                    if n is call:
+                        return ast.copy_location(load, n)
+                    return self.generic_visit(n)
+            setattr(st, fld, Swap().visit(getattr(st, fld)))
+            for s_ in new:
+                ast.copy_location(s_, st) if not hasattr(s_, 'lineno') else None
+                ast.fix_missing_locations(s_)
+            return new + [st]
+    return None
 
 
 def inline_function(fn: ast.FunctionDef, cls: Optional[ast.ClassDef], inl: Inliner) -> bool:
@@ -619,6 +693,13 @@ def inline_function(fn: ast.FunctionDef, cls: Optional[ast.ClassDef], inl: Inlin
                             continue
                     except CannotInline:
                         pass
+            # a helper call that is evaluated unconditionally as part of this statement but is neither its whole value
+            # nor expressible as an expression: computed into a fresh local first (`for k, v in helper(..).items()`)
+            hoisted = _hoist(st, inl, cls)
+            if hoisted is not None:
+                changed[0] = True
+                out += block(hoisted)
+                continue
             # expression-level inside the statement's own expressions
             rc = _ReplaceCalls(inl, cls)
             for key, e in list(_expr_fields(st)):
